@@ -148,6 +148,12 @@ def r19_2(run):
         run.ob('R19.2', tc, n.ast if n is not None else tc.node, 'ownership is requested over the authenticated connection: %s' % want, ok, slot='ownership:%s' % want.split()[0],
                message='%s is not sent (after post_bootstrap) in _tor_connected' % want)
         if n is not None:
+            # ... on *every* connection that can announce success: no path from post_bootstrap to a normal exit skips it
+            skip = g.reachable([x for b in boot for _, x in b.succ], avoid=lambda x, n=n: x is n, follow_exc=False)
+            run.ob('R19.2', tc, n.ast, '%s is sent on every path after authentication (also on a re-tried control connection)' % want,
+                   not any(e in skip for e in g.normal_exits()), slot='ownership-always:%s' % want.split()[0],
+                   message='_tor_connected can finish without sending %s (it is conditional): a launch can then succeed over a control connection on which '
+                           'ownership was never requested' % want)
             yielded = any(isinstance(a, ast.Yield) for a in node_asts(n))
             run.ob('R19.2', tc, n.ast, '%s is awaited' % want, yielded, slot='ownership-awaited:%s' % want.split()[0], message='%s reply is not awaited' % want)
     ys = g.nodes_where(lambda n: any(isinstance(a, (ast.Yield, ast.YieldFrom)) for a in node_asts(n)))
@@ -322,6 +328,7 @@ RULES = [
 from ..selftest import M  # noqa: E402
 F = 'txtorcon/controller.py'
 MUTANTS = [
+    M('ownership-once-flag', F, "        yield self.tor_protocol.queue_command('TAKEOWNERSHIP')\n        yield self.tor_protocol.queue_command('RESETCONF __OwningControllerProcess')", "        if not getattr(self, '_own', False):\n            self._own = True\n            yield self.tor_protocol.queue_command('TAKEOWNERSHIP')\n            yield self.tor_protocol.queue_command('RESETCONF __OwningControllerProcess')", ['R19.2']),
     M('config-datadir-treated-temporary', F, "        data_directory = tempfile.mkdtemp(prefix='tortmp')\n        config.DataDirectory = data_directory\n", "        try:\n            data_directory = config.DataDirectory\n        except KeyError:\n            data_directory = tempfile.mkdtemp(prefix='tortmp')\n            config.DataDirectory = data_directory\n", ['R19.4']),
     M('takeownership-not-awaited', F, "        yield self.tor_protocol.queue_command('TAKEOWNERSHIP')", "        self.tor_protocol.queue_command('TAKEOWNERSHIP')", ['R19.5', 'R19.2']),
     M('no-latch', F, "            d.callback(arg)\n        self._connected_listeners = None", "            d.callback(arg)\n        self._connected_listeners = []", ['R19.1']),
